@@ -310,6 +310,9 @@ def row_variants(prog, pv, r):
 
 def check(ctx):
     prog = ctx.prog
+    # Eq-consistency is stated against the derived (structural) equality of the label types
+    from rules import structs_common as _S
+    _S.check_derived_impls(ctx, "R-2", {"core::cmp::PartialEq", "core::cmp::Eq"})
     f = prog.fn(LABEL_CMP)
     labels = INTS + TEXTS
 
